@@ -56,7 +56,7 @@ PROBES = ["package_object_dropped_before_streams_drained", "file_replaced_under_
           "parts_compressed_differently_read_alternately", "one_byte_chunks_while_control_requeried",
           "uncompressed_control_tar", "debian_binary_not_first", "defective_package_rejected",
           "two_streams_same_part_interleaved", "name_with_space", "nested_directory",
-          "pax_format", "extra_ar_member", "long_name", "empty_data_tar", "query_for_a_name_that_is_almost_a_packed_one"]
+          "pax_format", "extra_ar_member", "long_name", "empty_data_tar", "query_for_a_name_that_is_almost_a_packed_one", "part_over_1_MiB"]
 
 _STATE = {}
 
@@ -91,6 +91,13 @@ DEFECTS = [None] * 22 + ["no_info", "no_control", "no_data",
            "two_data_empty", "two_control_empty"]
 
 
+def _file_data(f):
+    if f.get("rand"):
+        import random
+        return random.Random(f["rand"][0]).randbytes(f["rand"][1])
+    return dec_bytes(f["data"])
+
+
 def _bytes(rng, n):
     kind = rng.random()
     if kind < 0.4:
@@ -123,6 +130,12 @@ def generate(seed, run, tier):
         if big and rw.random() < 0.5:
             size = rw.choice([9000, 20000, 70000])
         files.append({"name": n, "data": enc_bytes(_bytes(rw, size))})
+    if files and rs.random() < 0.004:
+        # one incompressible file of more than 1 MiB: the data part is huge under every
+        # compression (kept as a recipe, not as bytes)
+        j_ = rw.randrange(len(files))
+        files[j_] = {"name": files[j_]["name"], "data": enc_bytes(b""),
+                     "rand": [rw.randrange(1 << 30), 1200000 + rw.randrange(99999)]}
     world = {"fields": fields, "scripts": scripts, "files": files,
              "tarfmt": rs.choice(["ustar", "gnu", "gnu", "pax"]),
              "ccomp": rs.choice(COMP), "dcomp": rs.choice(COMP),
@@ -176,7 +189,8 @@ def generate(seed, run, tier):
 def describe(case):
     w = case["world"]
     return {"fields": w["fields"], "scripts": sorted(w["scripts"]),
-            "files": [[f["name"], len(f["data"]["$b"])] for f in w["files"]],
+            "files": [[f["name"], f["rand"][1] if f.get("rand") else len(f["data"]["$b"])]
+                      for f in w["files"]],
             "tar_format": w["tarfmt"], "control_compression": w["ccomp"] or "none",
             "data_compression": w["dcomp"] or "none", "member_order": w["order"],
             "extra_member": w["extra"], "defect": w["defect"], "trace": case["trace"][:30],
@@ -221,7 +235,7 @@ def build(world):
     if fmt == "ustar":
         # ustar cannot store non-ASCII or >100 char names portably: keep what fits
         pass
-    files = [(f["name"], dec_bytes(f["data"])) for f in world["files"]]
+    files = [(f["name"], _file_data(f)) for f in world["files"]]
     if fmt == "ustar":
         files = [(n, d) for n, d in files if len(n) < 90 and n.isascii()]
     scripts = {k: dec_bytes(v) for k, v in world["scripts"].items()}
@@ -381,6 +395,8 @@ def execute(case):
         out.probe("debian_binary_not_first")
     if world["ccomp"] == "":
         out.probe("uncompressed_control_tar")
+    if any(f_.get("rand") for f_ in world["files"]):
+        out.probe("part_over_1_MiB")
     if world["tarfmt"] == "pax":
         out.probe("pax_format")
     if world.get("extra"):
@@ -508,6 +524,18 @@ def execute(case):
                 part = "data"
                 for sp in ("no/such/file", "./no/such/file", "/usr"[:1] + "nope"):
                     expect(si, op, _call(deb.data.has_file, sp), False, name=sp)
+                # the empty path: whatever the answer, the three spellings agree, and a name
+                # that "is there" can be asked for without KeyError
+                ans = [_call(deb.data.has_file, q_) for q_ in ("", "./", "/")]
+                if len(set(map(repr, ans))) != 1:
+                    raise Violation("query-result-differs-from-what-was-packed", op,
+                                    {"step": si, "name": "", "answers_for_three_spellings": ans})
+                if ans[0] == ("ok", True):
+                    g_ = _call(deb.data.get_file, "")
+                    if g_[0] == "exc" and g_[1] == "KeyError":
+                        raise Violation("query-result-differs-from-what-was-packed", op,
+                                        {"step": si, "name": "", "has_file": True,
+                                         "get_file": g_[:2]})
                 # names that are almost a packed file's name
                 packed = set(n_ for n_, _ in model["files"]) | set(model["dirs"])
                 if model["files"]:
@@ -654,6 +682,12 @@ def shrink_candidates(case):
             c["world"][key] = val
             yield c
     for i, f in enumerate(w["files"]):
+        if f.get("rand"):
+            c = copy.deepcopy(case)
+            c["world"]["files"][i]["rand"][1] = f["rand"][1] // 2
+            if c["world"]["files"][i]["rand"][1] >= 1:
+                yield c
+            continue
         d = dec_bytes(f["data"])
         if len(d) > 1:
             c = copy.deepcopy(case)
